@@ -866,6 +866,31 @@ def numeric_oracle(seed):
     except Exception as e:  # noqa: BLE001
         bad.append(("raises-%s-on-seen-values" % type(e).__name__, "transform raises on numeric categories seen at fit",
                     "%s: %s" % (type(e).__name__, str(e)[:120]), "no exception"))
+    if bad:
+        return bad
+    # integer categories at fit; at transform the SAME values arrive as floats (a missing value makes pandas store the
+    # column as float64): 3 and 3.0 are the same category, the missing row gets no indicator
+    ints = [v for v in pool if float(v) == int(v)] or [1, 2, 3]
+    ints = [int(v) for v in ints]
+    fit_vals = [rng.choice(ints) for _ in range(4)] + ints
+    tr_vals = [float(rng.choice(ints)) for _ in range(5)]
+    tr_vals[rng.randrange(5)] = float("nan")
+    for skip in (False, True):
+        try:
+            t = CategoriesToIntegers(columns=["c"], skip_errors=skip).fit(pandas.DataFrame({"c": pandas.Series(fit_vals, dtype="int64")}))
+            out = t.transform(pandas.DataFrame({"c": pandas.Series(tr_vals, dtype="float64")}))
+        except Exception as e:  # noqa: BLE001
+            bad.append(("raises-%s-on-seen-values:int-fit-float-transform" % type(e).__name__,
+                        "transform raises on categories seen at fit when they arrive as floats", "%s: %s" % (type(e).__name__, str(e)[:120]),
+                        "no exception"))
+            break
+        for i, v in enumerate(tr_vals):
+            ones = [c for c in out.columns if not pandas.isna(out[c].iloc[i]) and float(out[c].iloc[i]) == 1.0]
+            want = [] if v != v else ["c=%d" % int(v)]
+            if ones != want:
+                bad.append(("wrong-indicator:int-fit-float-transform", "integer categories seen at fit, the same values as floats at "
+                            "transform: the row's indicator is not the one of its value", {"row": i, "value": v, "set": ones}, want))
+                return bad
     return bad
 
 
